@@ -87,6 +87,19 @@ class Evaluator:
                 return self.call(d, [self.eval(n["recv"], env)] + [self.eval(a, env) for a in n["args"]])
             if n["method"] == "clone" and not n["args"]:
                 return self.eval(n["recv"], env)
+            if n["method"] in ("cmp", "partial_cmp") and d in ("std::cmp::Ord::cmp", "std::cmp::PartialOrd::partial_cmp") and len(n["args"]) == 1:
+                a, b = self.eval(n["recv"], env), self.eval(n["args"][0], env)
+                ty = (n["recv"].get("ty") or "").lstrip("&")
+                if not (ty.startswith("(") or ty in ("u8", "u16", "u32", "i32", "usize") or self.derived_ord(ty)):
+                    raise Unsupported(n, "comparison through a hand-written Ord on " + ty)
+                if type(a) != type(b):
+                    raise Unsupported(n, "comparison of unlike values")
+                o = ("Ordering", (a > b) - (a < b))
+                return o if n["method"] == "cmp" else ("SomeOrdering", o[1])
+            if n["method"] in ("is_gt", "is_ge", "is_lt", "is_le", "is_eq", "is_ne") and d.startswith("std::cmp::Ordering::"):
+                o = self.eval(n["recv"], env)
+                if isinstance(o, tuple) and o and o[0] == "Ordering":
+                    return {"is_gt": o[1] > 0, "is_ge": o[1] >= 0, "is_lt": o[1] < 0, "is_le": o[1] <= 0, "is_eq": o[1] == 0, "is_ne": o[1] != 0}[n["method"]]
             raise Unsupported(n, "method call outside the ordering fragment: " + d)
         if k == "Unary" and n.get("op") == "Not" and n.get("ty") == "bool":
             return not self.eval(n["e"], env)
@@ -115,6 +128,26 @@ class Evaluator:
             return self.eval(n["else"], env) if n.get("else") else ()
         if k == "Match":
             s = self.eval(n["scrut"], env)
+            if isinstance(s, tuple) and s and s[0] in ("Ordering", "SomeOrdering"):
+                names = {-1: "Less", 0: "Equal", 1: "Greater"}
+
+                def pat_matches(p):
+                    if p.get("k") in ("Wild", "Bind"):
+                        return True
+                    if p.get("k") == "Or":
+                        return any(pat_matches(q) for q in p["pats"])
+                    if p.get("k") == "TupleStruct" and (p.get("path") or "").endswith("Some") and s[0] == "SomeOrdering":
+                        q = p["pats"][0]
+                        return q.get("k") in ("Wild", "Bind") or (q.get("k") == "Lit" and (q["e"].get("path") or "").endswith("Ordering::" + names[s[1]]))
+                    if p.get("k") == "Lit" and s[0] == "Ordering":
+                        return (p["e"].get("path") or "").endswith("Ordering::" + names[s[1]])
+                    return False
+                for a in n["arms"]:
+                    if a.get("guard"):
+                        raise Unsupported(n, "guarded arm on an Ordering")
+                    if pat_matches(a["pat"]):
+                        return self.eval(a["body"], env)
+                raise Unsupported(n, "no arm taken")
             for a in n["arms"]:
                 p = a["pat"]
                 if p.get("k") == "Lit" and p["e"].get("lit") == "bool":
